@@ -313,7 +313,7 @@ def check_param_aliasing(ctx: Ctx):
         if f.parent is not None or f.module.rel.startswith("panoptica_statistics"):
             continue
         n_funcs += 1
-        for node, name, how, org in af.effects.get(f.qual, []):
+        for node, name, how, org, root in af.effects.get(f.qual, []):
             key = f"{f.qual}:{name}"
             ok = key in ALIAS_TABLE
             params = [p.name for p in f.call_params]
@@ -321,7 +321,7 @@ def check_param_aliasing(ctx: Ctx):
             if -2 in org:
                 ctx.decide("R15.7", f, node, f"{f.qual}:{name}:{how}", "no in-place write into a module-level container (it is shared by every object of the process)", ok or f.qual in GLOBAL_TABLE, {"statement": norm(node)[:90], "aliases": src})
                 continue
-            ctx.decide("R15.8", f, node, f"{f.qual}:{name}:{how}", "no in-place write into an array that may be the caller's", ok, {"statement": norm(node)[:90], "may_alias_parameter": src, "reason": ALIAS_TABLE.get(key)})
+            ctx.decide("R15.8", f, node, f"{f.qual}:{name}:{how[:60]}", "no in-place write into an array that may be the caller's", ok, {"statement": norm(node)[:90], "may_alias_parameter": src, "written_at": root[0] if root else None, "reason": ALIAS_TABLE.get(key)})
     ctx.ok("R15.8", None, None, "alias-effect:package", f"may-alias/effect analysis of {n_funcs} functions: no unlisted in-place write into a received array", {"functions": n_funcs, "return_summaries": sum(1 for v in af.summary.values() if v)}, nontrivial=False)
     if n_funcs < 100:
         ctx.undecided("R15.8.floor", None, None, "floor:R15.8", f"{n_funcs} functions analysed, confirmed floor is 100")
